@@ -92,6 +92,13 @@ def _gen_maxw_knap(rng):
     return c
 
 
+def _scale_of(e):
+    """step / increment of the budget-increase loops follow the scale of the costs (elections with integers far
+    beyond 2**53 would otherwise need ~10**18 iterations: the documented behaviour, but not a test case)"""
+    big = max([abs(pb.F(x)) for x in e["costs"]] + [abs(pb.F(e["budget"]))], default=Fraction(0))
+    return Fraction(int(big) // 16 + 1) if big > 2 ** 40 else Fraction(1)
+
+
 def gen(rng, i, tier):
     rule = RULES[i % len(RULES)]
     if rule == "mes_tight":
@@ -129,6 +136,11 @@ def gen(rng, i, tier):
         c["sat"] = rng.choice(list(sats))
     else:
         c["sat"] = rng.choice(additive)
+    if sats[c["sat"]][1] and _scale_of(e) > 1:
+        # CBC cannot take coefficients far beyond 2**53 (it answers without a solution and the normaliser raises):
+        # a solver fault, outside the property; such elections use the measures that do not reach the solver
+        c["sat"] = rng.choice([s for s in (sats if rule in ("greedy", "completion", "increase") else additive)
+                               if not sats[s][1]])
     tbs = ["lexico", "min_cost", "max_cost", "perm"] + (["app_score"] if e["btype"] == "approval" else [])
     c["tb"] = rng.choice(tbs)
     n = len(e["costs"])
@@ -143,7 +155,7 @@ def gen(rng, i, tier):
     if rule in ("mes", "mes_iter"):
         c["binary_sat"] = rng.choice([None, False])
     if rule == "mes_iter":
-        c["increment"] = pb.qs(rng.choice([1, Fraction(1, 2), Fraction(1, 3), 2]))
+        c["increment"] = pb.qs(rng.choice([1, Fraction(1, 2), Fraction(1, 3), 2]) * _scale_of(e))
         c["resolute"] = True if rng.random() < 0.8 else c["resolute"]
     if rule == "phragmen":
         nv = len(e["ballots"])
@@ -155,7 +167,7 @@ def gen(rng, i, tier):
         if c["base"] == "mes" and not sats[c["sat"]][0]:
             c["sat"] = rng.choice(additive)
             c["solver"] = bool(sats[c["sat"]][1])
-        c["step"] = pb.qs(rng.choice([1, Fraction(1, 2), Fraction(1, 3), 2]))
+        c["step"] = pb.qs(rng.choice([1, Fraction(1, 2), Fraction(1, 3), 2]) * _scale_of(e))
         c["exhaustive_stop"] = rng.random() < 0.7
     if rule == "completion":
         if not sats[c["sat"]][0]:
